@@ -4,7 +4,7 @@ from __future__ import annotations
 
 import ast
 
-from tiv import ecma48
+from tiv import affine, ecma48
 from tiv.astutil import conds, body_walk, call_name, dotted, enclosing_stmt, guards, norm, short, stores_in, walk_local
 from tiv.constfold import UNKNOWN, Folder
 from tiv.effects import names_in
@@ -292,12 +292,33 @@ def run(ck, m):
     ck.need(len(wh) == 1, "block: width, height = self._get_render_size() not found")
     H = norm(wh[0][1]["h"])
     outer = next((s for s in br.body if isinstance(s, ast.For)), None)
-    inc = find_stmts("$$r += 2", outer.body if outer else [])
-    tst = [s for s in (outer.body if outer else []) if isinstance(s, ast.If) and any(norm(x) == "buf_write(end_of_line)" for x in s.body)]
-    ck.ob("R4", outer or br, len(inc) == 1 and len(tst) == 1 and norm(tst[0].test) == f"{norm(inc[0][1]['r'])} < {H}" and outer.body.index(inc[0][0]) < outer.body.index(tst[0]),
-          "block: two pixel rows per line; the line terminator is written for every line but the last (`row_no += 2` ... `if row_no < height`)", stmt="block: r_height - 1 line terminators")
-    init = find_stmts(f"{norm(inc[0][1]['r']) if inc else 'row_no'} = 0", br.body)
-    ck.ob("R4", br, len(init) == 1, "block: the pixel-row counter must start at 0", stmt="block: row counter starts at 0")
+    tst = [s for s in (outer.body if outer else []) if isinstance(s, ast.If) and not s.orelse and any(norm(x) == "buf_write(end_of_line)" for x in s.body)]
+    all_eol = [n for n in body_walk(br) if isinstance(n, ast.Call) and norm(n) == "buf_write(end_of_line)"]
+    ck.ob("R4", outer or br, len(tst) == 1 and len(all_eol) == 1, "block: the line terminator is written once per line of cells, under one test of the pixel-row counter, at the end of the line loop",
+          stmt="block: one guarded terminator write per line")
+    if len(tst) == 1:
+        # the test must be equivalent to 2K < height in the K-th iteration (K = 1..height/2): every line but the last is terminated
+        from tiv import induct
+        try:
+            op, P = induct.compare_at(br, outer, tst[0].test, tst[0])
+        except induct.NotInductive as ex:
+            op = None
+            ck.expect(False, f"block: the terminator test `{short(tst[0].test)}` is not an affine comparison of the line counter ({ex})")
+        if op is not None:
+            ref = {(induct.K,): 2, (H,): -1}
+            c = induct.proportional(P, ref)
+            e = 0
+            if c is None and () in P:
+                e = P[()]
+                c = induct.proportional({k: v for k, v in P.items() if k != ()}, ref)
+            ck.expect(c is not None, f"block: the terminator test `{short(tst[0].test)}` compares {affine.show(P)}; expected a multiple of 2K - {H}")
+            if c is not None:
+                if c < 0:  # l op r  ==  (-l) op' (-r)
+                    c, e = -c, -e
+                    op = {ast.Lt: ast.Gt, ast.Gt: ast.Lt, ast.LtE: ast.GtE, ast.GtE: ast.LtE}.get(op, op)
+                okc = (op is ast.Lt and e == 0) or (op is ast.NotEq and e == 0) or (op is ast.LtE and 0 < e <= 2 * c)
+                ck.ob("R4", tst[0], okc, f"block: two pixel rows per line; the line terminator must be written for every line but the last: in the K-th line the test is `{affine.show(P)} "
+                      f"{ {ast.Lt: '<', ast.Gt: '>', ast.LtE: '<=', ast.GtE: '>=', ast.NotEq: '!=', ast.Eq: '=='}.get(op, '?')} 0` (sign-normalised), which is not 2K < {H}", stmt="block: r_height - 1 line terminators")
     after = [s for s in br.body if outer is not None and s.lineno > outer.end_lineno]
     ck.ob("R4", br, bool(after) and norm(after[0]) == "buf_write(SGR_DEFAULT)", "block: the output must end with SGR_DEFAULT (attributes reset after the last line)", stmt="block: final SGR_DEFAULT")
     nl_consts = [n for n in body_walk(br) if isinstance(n, ast.Constant) and isinstance(n.value, str) and "\n" in n.value and not isinstance(n._p, ast.Expr)]
@@ -317,7 +338,12 @@ def run(ck, m):
     c03.run(sc3, m)
     sc4 = Scoped(ck, "R6", lambda c: c.endswith("::BaseImage") or "rendered_" in c, rids={"R3"})
     c04.run(sc4, m)
-    ck.expect(sc3.kept >= 10 and sc4.kept >= 3, f"expected sibling obligations (C03.R3/R6: {sc3.kept}, C04.R3: {sc4.kept})")
+    #   C02.R3: every cell of a block line is painted (on kitty a background equal to the default background is not painted at all,
+    #           so the work-around must cover every cluster whose background colour is used).
+    import rules.c02 as c02
+    sc2 = Scoped(ck, "R6", lambda c: c.endswith("update_buffer"), rids={"R3"})
+    c02.run(sc2, m)
+    ck.expect(sc3.kept >= 10 and sc4.kept >= 3 and sc2.kept >= 8, f"expected sibling obligations (C03.R3/R6: {sc3.kept}, C04.R3: {sc4.kept}, C02.R3: {sc2.kept})")
 
 
 
